@@ -103,6 +103,55 @@ def interleave (as : List Arr) : List Rat :=
   | [] => []
   | a :: _ => (List.range a.data.size).flatMap fun k => as.map fun b => b.data.getD k 0
 
+/-! canonical trace tokens: what the harness observes on the live objects (instrumented `Jacobi._diag` / `__call__`,
+`MG.operator`, `update_params`, `AndersonAcceleration.__call__` / `reset`, `linear_solve` set-up vs re-use) -/
+
+def tCoef : Coef → String
+  | .unset => "None"
+  | .scalar v => showRat v
+  | .array i w => s!"a{i}R{(w.filter (· == true)).length}" ++ (if w.any (· == false) then "P" else "")
+
+def tOptCoef : Option Coef → String
+  | none => "-"
+  | some c => tCoef c
+
+def tOptNat : Option Nat → String
+  | none => "-"
+  | some n => toString n
+
+def tJac (r : JacRun) : String :=
+  s!"J({r.maxiter};{r.diag.p.dim},{tCoef r.diag.p.mass},{tCoef r.diag.p.diff},{showRat r.diag.h})"
+
+def tEvent : MGEvent → String
+  | .smooth r => tJac r
+  | .operator p h => s!"O({p.dim},{tCoef p.mass},{tCoef p.diff},{showRat h})"
+
+def traceOut (w0 : World) (op : Op) : Out → String
+  | .jac r => tJac r
+  | .mg es => " ".intercalate (es.map tEvent)
+  | .solves rs =>
+    let u := match op with
+      | .h1 _ mu omega dim _ _ => s!"U({dim},{tCoef omega},{tCoef mu})"
+      | .sb _ ell omega dim _ _ => s!"U({dim},{tCoef omega},{tCoef ell})"
+      | _ => "?"
+    " ".intercalate (u :: (rs.flatMap fun es => es.map tEvent))
+  | .aa rs =>
+    match op with
+    | .anderson i _ =>
+      match w0.aas[i]? with
+      | some a => " ".intercalate ((List.range rs.length).map fun k =>
+          let t := a.trace k
+          s!"A({k};{if t.1 then 1 else 0};{t.2})")
+      | none => "?"
+    | _ => "?"
+  | .dist ss => " ".intercalate (ss.map fun s => if s.2.2 then "L(S)" else "L(R)")
+  | .none =>
+    match op with
+    | .jacUpdate _ d m f => s!"U({tOptNat d},{tOptCoef m},{tOptCoef f})"
+    | .mgUpdate _ d m f => s!"U({tOptNat d},{tOptCoef m},{tOptCoef f})"
+    | _ => ""
+  | .noObject => "noobj"
+
 def scenario : P String := do
   let restore ← P.bool
   let keep ← P.bool
@@ -122,15 +171,15 @@ def scenario : P String := do
       let a := (step restore keep (run restore keep w0 pre) op).2
       let b := (step restore keep (run restore keep w0 (pre.flatMap Op.settingPart)) op).2
       let num := match dataOf op with
-        | none => ""
+        | none => "-"
         | some d =>
           match datas[d]? with
-          | none => ""
+          | none => "-"
           | some x =>
             match evalOut env op x (flip0 x) a with
-            | some rs => " | " ++ showRats (interleave rs)
-            | none => " | !"
-      ((if a == b then "eq " else "ne ") ++ showOut a ++ num) :: go (pre ++ [op]) rest
+            | some rs => showRats (interleave rs)
+            | none => "!"
+      ((if a == b then "eq " else "ne ") ++ showOut a ++ " | " ++ num ++ " | " ++ traceOut w0 op a) :: go (pre ++ [op]) rest
   pure (" ; ".intercalate (go [] ops))
 
 def dispatch : List String → Option String
